@@ -89,26 +89,109 @@ Proof.
   discriminate.
 Qed.
 
-(* a rule line: ValueError, or TypeError exactly when the parts are fine but FREQ is missing *)
-Theorem parse_rule_err ev ig line st e : parse_rule ev ig line st = Err e ->
-  ev_or_unmodelled e \/ (e = EType /\ exists kw, parse_rrule_kw ig line = Ok kw /\ k_freq kw = None).
+(* a rule line never fails with another class than ValueError (a missing FREQ part is caught
+   before the constructor is called: "missing FREQ") *)
+Theorem parse_rule_err ev ig line st e : parse_rule ev ig line st = Err e -> ev_or_unmodelled e.
 Proof.
   unfold parse_rule. destruct (parse_rrule_kw ig line) as [kw|e'] eqn:E.
-  - intro H. apply ctor_err in H as [[-> Hf]|[-> _]].
-    + right. split; [reflexivity|]. exists kw. split; [reflexivity|exact Hf].
-    + left. left. reflexivity.
-  - intro H. inversion H; subst. left. apply (parse_rrule_kw_err _ _ _ E).
+  - destruct (isNone (k_freq kw)) eqn:F; intro H; [inversion H; left; reflexivity|].
+    apply ctor_err in H as [[_ Hf]|[-> _]]; [rewrite Hf in F; discriminate|left; reflexivity].
+  - intro H. inversion H; subst. apply (parse_rrule_kw_err _ _ _ E).
 Qed.
 
-(* the two deviations from "malformed text raises ValueError", as the model sees them *)
-Theorem malformed_valueerror_refuted_missing_freq :
+Lemma parse_rules_err ev ig st : forall l e, parse_rules ev ig st l = Err e -> ev_or_unmodelled e.
+Proof.
+  induction l as [|x l IH]; intros e H; [discriminate|]. cbn [parse_rules] in H.
+  destruct (parse_rule ev ig x st) eqn:E; [|inversion H; subst; apply (parse_rule_err _ _ _ _ _ E)].
+  destruct (parse_rules ev ig st l) eqn:E2; [discriminate|]. inversion H; subst. apply IH. reflexivity.
+Qed.
+
+Lemma pdv_parms_err o names : forall parms tz vf e, pdv_parms o names parms tz vf = Err e -> e = EValue.
+Proof.
+  induction parms as [|p r IH]; intros tz vf e H; [discriminate|]. cbn [pdv_parms] in H.
+  destruct (startswith s_TZIDeq p).
+  - destruct (after_last_tzid p); [destruct (tzid_lookup names s)|]; apply IH in H; exact H.
+  - destruct (leqb p s_VALUE_DT || leqb p s_VALUE_D).
+    + destruct vf; [inversion H; reflexivity|apply IH in H; exact H].
+    + inversion H; reflexivity.
+Qed.
+
+Lemma pdv_dates_err ig tz : forall l e, pdv_dates ig tz l = Err e -> ev_or_unmodelled e.
+Proof.
+  induction l as [|x l IH]; intros e H; [discriminate|]. cbn [pdv_dates] in H.
+  destruct (parse_date ig x); [|inversion H; left; reflexivity|inversion H; right; reflexivity].
+  destruct (negb (tz =? 0) && negb (dtz d =? 0)); [inversion H; left; reflexivity|].
+  destruct (pdv_dates ig tz l) eqn:E; [discriminate|]. inversion H; subst. apply IH. reflexivity.
+Qed.
+
+Lemma parse_date_value_err o names v parms e : parse_date_value o names v parms = Err e -> ev_or_unmodelled e.
+Proof.
+  unfold parse_date_value. destruct (pdv_parms o names parms 0 false) eqn:E.
+  - apply pdv_dates_err.
+  - intro H. inversion H; subst. apply pdv_parms_err in E. left. exact E.
+Qed.
+
+Lemma parse_rdates_err ig : forall l e, parse_rdates ig l = Err e -> ev_or_unmodelled e.
+Proof.
+  induction l as [|x l IH]; intros e H; [discriminate|]. cbn [parse_rdates] in H.
+  destruct (pdv_dates ig 0 (split_on 44 x)) eqn:E; [|inversion H; subst; apply (pdv_dates_err _ _ _ _ E)].
+  destruct (parse_rdates ig l) eqn:E2; [discriminate|]. inversion H; subst. apply IH. reflexivity.
+Qed.
+
+Lemma do_line_err o names line a e : do_line o names line a = Err e -> ev_or_unmodelled e.
+Proof.
+  unfold do_line. destruct (isnil line); [discriminate|].
+  destruct (split_on 59 _) as [|pname parms]; [intro H; inversion H; left; reflexivity|].
+  repeat match goal with
+  | |- context [if ?b then _ else _] => destruct b
+  end;
+  try (destruct parms; intro H; inversion H; left; reflexivity);
+  try (intro H; inversion H; left; reflexivity).
+  - destruct (parse_date_value o names _ parms) eqn:E; intro H; inversion H; subst.
+    apply (parse_date_value_err _ _ _ _ _ E).
+  - destruct (parse_date_value o names _ parms) as [[|d [|d2 t]]|] eqn:E; intro H; inversion H; subst;
+      try (left; reflexivity). apply (parse_date_value_err _ _ _ _ _ E).
+Qed.
+
+Lemma do_lines_err o names : forall lines a e, do_lines o names lines a = Err e -> ev_or_unmodelled e.
+Proof.
+  induction lines as [|l r IH]; intros a e H; [discriminate|]. cbn [do_lines] in H.
+  destruct (do_line o names l a) eqn:E; [apply (IH _ _ H)|inversion H; subst; apply (do_line_err _ _ _ _ _ E)].
+Qed.
+
+(* unknown or malformed text: whatever rrulestr is given (within the modelled fragment), an error
+   is a ValueError -- never TypeError / IndexError / KeyError / AttributeError *)
+Theorem rrulestr_error_classes ev o s e : parse_rfc ev o s = RErr e -> ev_or_unmodelled e.
+Proof.
+  unfold parse_rfc. destruct (negb (forallb is_ascii s)); [intro H; inversion H; right; reflexivity|].
+  destruct (isnil (strip s)); [intro H; inversion H; left; reflexivity|].
+  unfold parse_lines. destruct (shortcut _ _ _).
+  - destruct (map upper _) as [|l0 t]; [intro H; inversion H; left; reflexivity|].
+    destruct (parse_rule ev (o_ignoretz o) l0 (o_dtstart o)) eqn:E; intro H; inversion H; subst.
+    apply (parse_rule_err _ _ _ _ _ E).
+  - unfold general. destruct (do_lines _ _ _ _) as [a|e'] eqn:E;
+      [|intro H; inversion H; subst; apply (do_lines_err _ _ _ _ _ E)].
+    unfold assemble. match goal with |- (if ?b then _ else _) = _ -> _ => destruct b end.
+    + destruct (parse_rules ev (o_ignoretz o) (a_start a) (a_rr a)) eqn:E1;
+        [|intro H; inversion H; subst; apply (parse_rules_err _ _ _ _ _ E1)].
+      destruct (parse_rdates (o_ignoretz o) (a_rd a)) eqn:E2;
+        [|intro H; inversion H; subst; apply (parse_rdates_err _ _ _ E2)].
+      destruct (parse_rules ev (o_ignoretz o) (a_start a) (a_xr a)) eqn:E3;
+        [discriminate|intro H; inversion H; subst; apply (parse_rules_err _ _ _ _ _ E3)].
+    + destruct (a_rr a) as [|v t]; [intro H; inversion H; left; reflexivity|].
+      destruct (parse_rule ev (o_ignoretz o) v (a_start a)) eqn:E4; intro H; inversion H; subst.
+      apply (parse_rule_err _ _ _ _ _ E4).
+Qed.
+
+(* formerly findings F-C13-a / F-C13-b (TypeError / IndexError), fixed by ec791d5 / a8bd79d *)
+Example missing_freq_valueerror :
   parse_rfc (mkenv 0 (mkdt 2000 1 1 0 0 0 0 0)) (mkopts None false false false false false [])
-            (zs "RRULE:COUNT=3") = RErr EType.
+            (zs "RRULE:COUNT=3") = RErr EValue.
 Proof. vm_compute. reflexivity. Qed.
 
-Theorem malformed_valueerror_refuted_no_rrule :
+Example no_rrule_valueerror :
   parse_rfc (mkenv 0 (mkdt 2000 1 1 0 0 0 0 0)) (mkopts None false false false false false [])
-            (zs "DTSTART:20000101") = RErr EIndex.
+            (zs "DTSTART:20000101") = RErr EValue.
 Proof. vm_compute. reflexivity. Qed.
 
 (* examples of the ValueError classes *)
@@ -124,11 +207,85 @@ Example err_wrong_property : parse_rrule_kw false (zs "FOO:FREQ=DAILY") = Err EV
 Example known_ex : known (zs "BYSETPOS") = true /\ known (zs "BYFOO") = false. Proof. split; reflexivity. Qed.
 
 (* ---- letter case ---- *)
-(* rrulestr upper-cases the whole text first: texts that agree after upper-casing (and in their
-   TZID names, which are looked up verbatim) are read identically *)
-Theorem case_invariance ev o s s' : upper s = upper s' -> tzid_findall s = tzid_findall s' ->
-  forallb is_ascii s = forallb is_ascii s' -> parse_rfc ev o s = parse_rfc ev o s'.
-Proof. intros H1 H2 H3. unfold parse_rfc. rewrite H1, H2, H3. reflexivity. Qed.
+(* upper-casing commutes with the way the text is cut into lines *)
+Lemma upc_space c : is_space (upc c) = is_space c.
+Proof. unfold upc, is_space, is_lower. destruct ((97 <=? c) && (c <=? 122)) eqn:E; lia. Qed.
+Lemma upc_lb c : is_lb (upc c) = is_lb c.
+Proof. unfold upc, is_lb, is_lower. destruct ((97 <=? c) && (c <=? 122)) eqn:E; lia. Qed.
+Lemma upc_eqb c x : x < 65 \/ 90 < x -> (x < 97 \/ 122 < x) -> (upc c =? x) = (c =? x).
+Proof. unfold upc, is_lower. intros. destruct ((97 <=? c) && (c <=? 122)) eqn:E; lia. Qed.
+
+Lemma words_upper s : words (upper s) = map upper (words s).
+Proof.
+  induction s as [|c r IH]; [reflexivity|]. cbn [upper map words]. fold (upper r).
+  rewrite upc_space, IH. destruct (is_space c); [reflexivity|].
+  destruct r as [|c2 r']; [reflexivity|]. cbn [upper map]. fold (upper r'). rewrite upc_space.
+  destruct (is_space c2); [reflexivity|]. destruct (words (c2 :: r')); reflexivity.
+Qed.
+
+Lemma slines_upper : forall s b, slines b (upper s) = map upper (slines b s).
+Proof.
+  induction s as [|c r IH]; intro b; [reflexivity|]. cbn [upper map slines]. fold (upper r).
+  rewrite upc_lb, !(upc_eqb c) by lia. destruct (b && (c =? 10)); [apply IH|].
+  destruct (is_lb c); [cbn [map]; rewrite IH; reflexivity|].
+  rewrite IH. destruct (slines false r); reflexivity.
+Qed.
+
+Lemma lstrip_upper s : lstrip (upper s) = upper (lstrip s).
+Proof.
+  induction s as [|c r IH]; [reflexivity|]. cbn [upper map lstrip]. fold (upper r). rewrite upc_space.
+  destruct (is_space c); [exact IH|reflexivity].
+Qed.
+
+Lemma rstrip_upper s : rstrip (upper s) = upper (rstrip s).
+Proof. unfold rstrip, upper. rewrite <- map_rev. fold (upper (rev s)). rewrite lstrip_upper. unfold upper. rewrite map_rev. reflexivity. Qed.
+
+Lemma strip_upper s : strip (upper s) = upper (strip s).
+Proof. unfold strip. rewrite lstrip_upper, rstrip_upper. reflexivity. Qed.
+
+Lemma unfold_lines_upper : forall raw kept,
+  unfold_lines (map upper raw) (map upper kept) = map upper (unfold_lines raw kept).
+Proof.
+  induction raw as [|x r IH]; intro kept.
+  - cbn [map unfold_lines]. unfold upper. rewrite <- map_rev. reflexivity.
+  - cbn [map unfold_lines]. rewrite rstrip_upper. destruct (rstrip x) as [|c t]; [apply IH|].
+    cbn [upper map]. fold (upper t). destruct kept as [|prev k'].
+    + apply (IH [x]).
+    + cbn [map]. rewrite (upc_eqb c 32) by lia. destruct (c =? 32).
+      * rewrite <- upper_app. apply (IH ((prev ++ t) :: k')).
+      * apply (IH (x :: prev :: k')).
+Qed.
+
+Lemma get_lines_upper u s : get_lines u (upper s) = map upper (get_lines u s).
+Proof.
+  unfold get_lines. destruct u.
+  - unfold splitlines. rewrite slines_upper. apply (unfold_lines_upper _ []).
+  - apply words_upper.
+Qed.
+
+Lemma isnil_upper s : isnil (upper s) = isnil s.
+Proof. destruct s; reflexivity. Qed.
+
+Lemma upc_ascii c : is_ascii (upc c) = is_ascii c.
+Proof. unfold upc, is_ascii, is_lower. destruct ((97 <=? c) && (c <=? 122)) eqn:E; lia. Qed.
+
+Lemma forallb_map_upc s : forallb is_ascii (map upc s) = forallb is_ascii s.
+Proof. induction s as [|c r IH]; [reflexivity|]. cbn [map forallb]. rewrite upc_ascii, IH. reflexivity. Qed.
+
+(* rrulestr upper-cases everything except the TZID names: texts that agree after upper-casing and
+   carry the same TZID names are read identically *)
+Theorem case_invariance ev o s s' : upper s = upper s' ->
+  tzid_findall (join [10] (get_lines (o_unfold o || o_compatible o) s)) =
+  tzid_findall (join [10] (get_lines (o_unfold o || o_compatible o) s')) ->
+  parse_rfc ev o s = parse_rfc ev o s'.
+Proof.
+  intros H1 H2. unfold parse_rfc.
+  assert (A : forallb is_ascii s = forallb is_ascii s').
+  { rewrite <- (forallb_map_upc s), <- (forallb_map_upc s'). fold (upper s). fold (upper s'). rewrite H1. reflexivity. }
+  assert (B : isnil (strip s) = isnil (strip s')).
+  { rewrite <- (isnil_upper (strip s)), <- (isnil_upper (strip s')), <- !strip_upper, H1. reflexivity. }
+  rewrite A, B, H2, H1. rewrite <- !get_lines_upper, H1. reflexivity.
+Qed.
 
 Lemma loc_upc c : upc (loc c) = upc c.
 Proof. unfold upc, loc, is_lower, is_upper. destruct ((65 <=? c) && (c <=? 90)) eqn:E.
@@ -157,12 +314,10 @@ Proof.
   - cbn [forallb]. rewrite IH. destruct b; [rewrite loc_ascii|]; reflexivity.
 Qed.
 
-(* any lower/upper-casing of a text without TZID parameters is read like the text itself *)
-Theorem spelling_case ev o mask s : tzid_findall s = [] -> tzid_findall (case_text mask mask s) = [] ->
+(* any lower/upper-casing of a text is read like the text itself, provided the TZID names (which
+   keep their case and are looked up verbatim) come out the same, e.g. when there is none *)
+Theorem spelling_case ev o mask s :
+  tzid_findall (join [10] (get_lines (o_unfold o || o_compatible o) (case_text mask mask s))) =
+  tzid_findall (join [10] (get_lines (o_unfold o || o_compatible o) s)) ->
   parse_rfc ev o (case_text mask mask s) = parse_rfc ev o s.
-Proof.
-  intros H1 H2. apply case_invariance.
-  - apply case_text_upper.
-  - rewrite H1, H2. reflexivity.
-  - apply case_text_ascii.
-Qed.
+Proof. intro H. apply case_invariance; [apply case_text_upper|exact H]. Qed.
